@@ -76,7 +76,21 @@ def make_case(ctx, rng):
                                           edge_fraction=rng.choice([0.0, 0.3, 0.7]))
     opts = {"tag": rng.choice(["PS", "HP"]), "only_snvs": rng.random() < 0.2,
             "downsampling": rng.choice([2, 3, 4, 6, 15]),
-            "samples": None}
+            "samples": None, "nbam": rng.choice([1, 1, 2])}
+    if opts["nbam"] == 2:
+        # spread the templates over two BAM files and give them per-file names that collide across files
+        # (same read name in both files, possibly on opposite haplotypes): whatshap keys reads by (file, name)
+        by_name = {}
+        for r in reads:
+            by_name.setdefault(r["name"], []).append(r)
+        counters = [0, 0]
+        for name in sorted(by_name):
+            f = rng.randint(0, 1)
+            new = f"q{counters[f]}"
+            counters[f] += 1
+            for r in by_name[name]:
+                r["name"] = new
+                r["bam"] = f
     if nsamples > 1 and rng.random() < 0.4:
         opts["samples"] = sorted(rng.sample(sc.samples, rng.randint(1, nsamples - 1)))
     return sc, reads, opts
@@ -85,7 +99,15 @@ def make_case(ctx, rng):
 def run_case(ctx, sc, reads, opts, wd):
     synth.write_fasta(sc, os.path.join(wd, "ref.fa"))
     synth.write_vcf(sc, os.path.join(wd, "in.vcf"))
-    synth.write_bam(sc, reads, os.path.join(wd, "reads.bam"))
+    nbam = opts.get("nbam", 1)
+    bams = []
+    for f in range(nbam):
+        sub = [r for r in reads if r.get("bam", 0) == f]
+        if not sub and (f > 0 or nbam > 1):
+            continue
+        path = f"reads{f}.bam"
+        synth.write_bam(sc, sub, os.path.join(wd, path))
+        bams.append(path)
     trace = os.path.join(wd, "trace.jsonl")
     if os.path.exists(trace):
         os.unlink(trace)
@@ -95,7 +117,10 @@ def run_case(ctx, sc, reads, opts, wd):
         args.append("--only-snvs")
     for s in opts["samples"] or []:
         args += ["--sample", s]
-    args += ["in.vcf", "reads.bam"]
+    if not bams:
+        synth.write_bam(sc, [], os.path.join(wd, "reads0.bam"))
+        bams = ["reads0.bam"]
+    args += ["in.vcf"] + bams
     rc, out, err = run_cli(ctx, args, cwd=wd, env_extra={"WHATSHAP_VERIF_TRACE": trace})
     traces = []
     if os.path.exists(trace):
@@ -174,7 +199,7 @@ def evaluate(ctx, batch):
     l1_cases, l1_meta, l2_cases, l2_meta = [], [], [], []
     for item in batch:
         sc, opts = item["sc"], item["opts"]
-        key = json.dumps([sc.to_json(), opts, [(r["name"], r["start"], r["hap"]) for r in item["reads"]]], sort_keys=True)
+        key = json.dumps([sc.to_json(), opts, [(r.get("bam", 0), r["name"], r["start"], r["hap"]) for r in item["reads"]]], sort_keys=True)
         replay = {"scenario": sc.to_json(), "reads": item["reads"], "opts": opts}
         if item["rc"] != 0:
             ctx.count(key, nontrivial=False)
@@ -192,15 +217,17 @@ def evaluate(ctx, batch):
             ctx.tally("phase_sets", len(sizes))
             l1_cases.append(calls_term(calls))
             l1_meta.append((replay, s, calls))
-        hap_of = {r["name"]: r["hap"] for r in item["reads"]}
+        hap_of = {(r.get("bam", 0), r["name"]): r["hap"] for r in item["reads"]}
+        two_files = any(r.get("bam", 0) == 1 for r in item["reads"]) and any(r.get("bam", 0) == 0 for r in item["reads"])
         for tr in item["traces"]:
             if len(tr["family"]) != 1 or tr["algorithm"] != "whatshap":
                 continue
             good = True
             for r in tr["reads"]:
-                if r["name"] not in hap_of:
+                k = (r["source_id"] if two_files else (1 if (0, r["name"]) not in hap_of else 0), r["name"])
+                if k not in hap_of:
                     good = False
-                r["_hap"] = hap_of.get(r["name"], 0)
+                r["_hap"] = hap_of.get(k, 0)
             if not good:
                 ctx.l2_disagreement("trace: read handed to the solver is not an input read", [tr["chromosome"]])
                 continue
@@ -241,6 +268,7 @@ def do_runs(ctx, specs):
         batch.append(dict(sc=sc, reads=reads, opts=opts, rc=rc, err=err, traces=traces, wd=wd))
         ctx.tally("runs")
         ctx.tally("tag." + opts["tag"])
+        ctx.tally("bam_files", opts.get("nbam", 1))
         ctx.tally("samples", len(sc.samples))
         if k < 2:
             ctx.sample({"opts": opts, "samples": sc.samples, "chroms": sc.chroms,
